@@ -4,6 +4,8 @@
 import TjdModel.SExp
 import TjdModel.Basic
 import TjdModel.Autojac.Typing
+import TjdModel.Autojac.Pipeline
+import TjdModel.Autojac.Prog
 namespace Tjd.Driver
 open Tjd SExp
 
@@ -72,8 +74,116 @@ def handle (req : SExp) : Option SExp := do
 
 end TypingD
 
+
+/-! ### autojac on P-int programs (C01, C02, C05, C06, C07, C15, C20) -/
+namespace AutojacD
+open Tjd.Autojac
+
+def parseNode : SExp → Option (PNode Rat)
+  | list [atom "leaf", n, d, rg, vals] => do
+    pure (.leaf (← n.nat?) (← d.nat?) (← rg.bool?) (← ratList? vals))
+  | list [atom "aff", n, d, list srcs, c] => do
+    let ss ← srcs.mapM fun s => match s with
+      | list [i, m] => do pure ((← i.nat?), (← ratMat? m))
+      | _ => none
+    pure (.aff (← n.nat?) (← d.nat?) ss (← ratList? c))
+  | list [atom "mul", a, b] => do pure (.mul (← a.nat?) (← b.nat?))
+  | list [atom "detach", a] => do pure (.detach (← a.nat?))
+  | _ => none
+
+def parseProg (req : SExp) : Option (Prog Rat) := do
+  let nodes ← req.field? "prog"
+  nodes.mapM parseNode
+
+/-- aggregators available to the model side of the autojac correspondence -/
+def parseAgg : List SExp → Option (Mat Rat → Except Err (Vec Rat))
+  | [atom "sum"] => some fun J => .ok (combine (ncols J) J (onesV J.length))
+  | [atom "mean"] => some fun J =>
+      .ok (combine (ncols J) J (List.replicate J.length (1 / (J.length : Rat))))
+  | [atom "const", w] => do
+      let w ← ratList? w
+      pure fun J => if J.length ≠ w.length then .error Err.value else .ok (combine (ncols J) J w)
+  | [atom "probe", w] => do
+      -- non-linear, couples all columns through the Gramian:  Jᵀ (w ⊙ (1 + G·(1,2,3,...)))
+      let w ← ratList? w
+      pure fun J =>
+        if J.length ≠ w.length then .error Err.value else
+        let G := gram J
+        let ramp : Vec Rat := (List.range J.length).map fun i => ((i + 1 : Nat) : Rat)
+        let u := List.zipWith (fun wi gi => wi * (1 + gi)) w (matVec G ramp)
+        .ok (combine (ncols J) J u)
+  | [atom "badlen", k] => do
+      -- an aggregator returning a vector of the wrong length (for `_disunite`'s check)
+      let k ← k.nat?
+      pure fun _ => .ok (zeros k)
+  | _ => none
+
+def parseChunk : SExp → Option (Option Int)
+  | atom "none" => some none
+  | e => e.int?.map some
+
+def parseGrads (es : List SExp) : Option (Grads Rat) := do
+  let kvs ← es.mapM fun e => match e with
+    | list [k, atom "none"] => do pure ((← k.nat?), (none : Option (Vec Rat)))
+    | list [k, v] => do pure ((← k.nat?), some (← ratList? v))
+    | _ => none
+  pure fun k => match kvs.find? (·.1 == k) with
+    | some (_, v) => v
+    | none => none
+
+def gradsS (g : Grads Rat) (report : List Nat) : SExp :=
+  list (report.map fun k => list [ofNat k, match g k with | none => atom "none" | some v => ofRats v])
+
+def sweepsS (sw : List Sweep) : SExp :=
+  list (sw.map fun s => list [ofNat s.rows, ofBool s.vmap, ofBool s.retain])
+
+def outcomeS (o : Outcome Rat) (report : List Nat) : SExp :=
+  list [list [atom "err", match o.err with | none => atom "none" | some e => errS e],
+        list [atom "grads", gradsS o.grads report],
+        list [atom "sweeps", sweepsS o.sweeps]]
+
+def handleBackward (req : SExp) : Option SExp := do
+  let p ← parseProg req
+  let (E, _) := p.engine
+  let tensors ← natList? (← req.field1? "tensors")
+  let inputs ← natList? (← req.field1? "inputs")
+  let A ← parseAgg (← req.field? "agg")
+  let chunk ← parseChunk (← req.field1? "chunk")
+  let retain ← (← req.field1? "retain").bool?
+  let h ← parseGrads (← req.field? "grads")
+  let report ← natList? (← req.field1? "report")
+  pure (outcomeS (backward E tensors inputs A chunk retain h) report)
+
+def handleMtl (req : SExp) : Option SExp := do
+  let p ← parseProg req
+  let (E, ndim) := p.engine
+  let losses ← natList? (← req.field1? "losses")
+  let features ← natList? (← req.field1? "features")
+  let tps ← (← req.field? "tasks").mapM natList?
+  let shared ← natList? (← req.field1? "shared")
+  let A ← parseAgg (← req.field? "agg")
+  let chunk ← parseChunk (← req.field1? "chunk")
+  let retain ← (← req.field1? "retain").bool?
+  let h ← parseGrads (← req.field? "grads")
+  let report ← natList? (← req.field1? "report")
+  pure (outcomeS (mtlBackward E ndim losses features tps shared A chunk retain h) report)
+
+/-- values and the full Jacobian of a program (diagnostics / C15) -/
+def handleJacobian (req : SExp) : Option SExp := do
+  let p ← parseProg req
+  let (E, _) := p.engine
+  let outs ← natList? (← req.field1? "outs")
+  let ins ← natList? (← req.field1? "ins")
+  let blocks := outs.map fun o => list (ins.map fun i =>
+    match E.jac o i with | none => atom "none" | some M => ofRatMat M)
+  pure (list [list [atom "vals", list (p.infos.map fun i => ofRats i.vals)],
+              list (atom "jac" :: blocks)])
+
+end AutojacD
+
 def handlers : List (String × (SExp → Option SExp)) :=
-  [("typing", TypingD.handle)]
+  [("typing", TypingD.handle), ("backward", AutojacD.handleBackward),
+   ("mtl", AutojacD.handleMtl), ("jacobian", AutojacD.handleJacobian)]
 
 def handleLine (line : String) : String :=
   match SExp.parse line with
